@@ -115,8 +115,36 @@ def quantified_timed_goal():
     return pr
 
 
+def bounded_parametrized():
+    """a bounded numeric fluent WITH a parameter (one counter per object) and a bounded 0-ary one: plans can push either outside its range"""
+    pr = Problem("bounded_parametrized")
+    K = UserType("Tank")
+    t1, t2 = Object("t1", K), Object("t2", K)
+    pr.add_objects([t1, t2])
+    level = Fluent("level", IntType(0, 2), t=K)
+    total = Fluent("total", IntType(0, 3))
+    done = Fluent("done", BoolType())
+    pr.add_fluent(level, default_initial_value=0)
+    pr.add_fluent(total, default_initial_value=0)
+    pr.add_fluent(done, default_initial_value=False)
+    pr.set_initial_value(level(t2), 1)
+    fill = InstantaneousAction("fill", t=K)
+    fill.add_increase_effect(level(fill.parameter("t")), 1)
+    fill.add_increase_effect(total, 1)
+    drain = InstantaneousAction("drain", t=K)
+    drain.add_decrease_effect(level(drain.parameter("t")), 1)
+    finish = InstantaneousAction("finish")
+    finish.add_effect(done, True)
+    for a in (fill, drain, finish):
+        pr.add_action(a)
+    pr.add_goal(done)
+    return pr
+
+
 def crafted_cases():
-    out = [("crafted:static_default_true", (CK.GROUNDING,), static_default_true()),
+    out = [("crafted:bounded_parametrized", (CK.BOUNDED_TYPES_REMOVING,), bounded_parametrized()),
+           ("crafted:bounded_parametrized+grounding", (CK.BOUNDED_TYPES_REMOVING, CK.GROUNDING), bounded_parametrized()),
+           ("crafted:static_default_true", (CK.GROUNDING,), static_default_true()),
            ("crafted:separator_names", (CK.GROUNDING,), separator_names()),
            ("crafted:quantified_timed_goal", (CK.QUANTIFIERS_REMOVING,), quantified_timed_goal())]
     for order in (("tick", "tick_0", "tick_1"), ("tick_1", "tick", "tick_0"), ("tick_0", "tick_1", "tick")):
